@@ -28,6 +28,15 @@ type svar struct {
 	w    int
 }
 
+// fsig is what a caller needs to know about an already translated function
+type fsig struct {
+	params []svar          // in order
+	res    []svar          // result tuple
+	writes map[string]bool // []byte parameters the body stores into (the caller's slice shares the backing array)
+}
+
+var translated = map[string]*fsig{}
+
 type ftr struct {
 	p      *pkgInfo
 	x      *xlate
@@ -122,6 +131,67 @@ func (t *ftr) errExpr(e ast.Expr) string {
 	return t.fail(e, "unsupported error expression")
 }
 
+func (t *ftr) isErr(e ast.Expr) bool {
+	tv, ok := t.p.info.Types[e]
+	return ok && tv.Type != nil && tv.Type.String() == "error"
+}
+
+// call translates a call of an already translated function: the Lean term `F fuel a1 a2 …` and the write-backs
+// (`dest := c.dest` for every []byte argument the callee stores into — caller and callee share the backing array).
+func (t *ftr) call(ce *ast.CallExpr) (term string, sig *fsig, back []string, gs []string, ok bool) {
+	id, isId := ce.Fun.(*ast.Ident)
+	if !isId {
+		return "", nil, nil, nil, false
+	}
+	sig = translated[id.Name]
+	if sig == nil || len(ce.Args) != len(sig.params) {
+		return "", nil, nil, nil, false
+	}
+	args := []string{id.Name, "fuel"}
+	for i, a := range ce.Args {
+		p := sig.params[i]
+		switch p.kind {
+		case "bytes":
+			aid, isId := a.(*ast.Ident)
+			v, known := t.byName[func() string {
+				if isId {
+					return aid.Name
+				}
+				return ""
+			}()]
+			if !isId || !known || v.kind != "bytes" {
+				t.fail(a, "unsupported []byte argument")
+				return "", nil, nil, nil, false
+			}
+			args = append(args, "s."+aid.Name)
+			if sig.writes[p.name] {
+				back = append(back, fmt.Sprintf("%s := c.%s", aid.Name, p.name))
+			}
+		case "int":
+			gs = append(gs, t.guards(a)...)
+			args = append(args, t.x.exprAs(a, ityp{p.w, false}))
+		default:
+			t.fail(a, "unsupported argument kind")
+			return "", nil, nil, nil, false
+		}
+	}
+	return "(" + strings.Join(args, " ") + ")", sig, back, gs, true
+}
+
+func proj(i, n int) string {
+	if n == 1 {
+		return "r"
+	}
+	p := "r"
+	for k := 0; k < i; k++ {
+		p += ".2"
+	}
+	if i < n-1 {
+		p += ".1"
+	}
+	return p
+}
+
 // valueAs translates an expression to be stored in / returned as a variable of the given shape
 func (t *ftr) valueAs(e ast.Expr, v svar) string {
 	switch v.kind {
@@ -148,6 +218,13 @@ func (t *ftr) cond(e ast.Expr) string {
 		case token.LOR:
 			return "(" + t.cond(e.X) + " || " + t.cond(e.Y) + ")"
 		case token.LSS, token.LEQ, token.GTR, token.GEQ, token.EQL, token.NEQ:
+			if (e.Op == token.EQL || e.Op == token.NEQ) && (t.isErr(e.X) || t.isErr(e.Y)) {
+				op := "=="
+				if e.Op == token.NEQ {
+					op = "!="
+				}
+				return fmt.Sprintf("(%s %s %s)", t.errExpr(e.X), op, t.errExpr(e.Y))
+			}
 			lt, ok := t.x.typeOf(e.X)
 			if !ok {
 				if rt, ok2 := t.x.typeOf(e.Y); ok2 {
@@ -182,6 +259,36 @@ func (t *ftr) cond(e ast.Expr) string {
 }
 
 func (t *ftr) assign(lhs []ast.Expr, rhs []ast.Expr, tok token.Token, n ast.Node) string {
+	if len(rhs) == 1 {
+		if ce, isCall := rhs[0].(*ast.CallExpr); isCall {
+			if term, sig, back, gs, ok := t.call(ce); ok {
+				if len(lhs) != len(sig.res) || (tok != token.ASSIGN && tok != token.DEFINE) {
+					return t.fail(n, "call result count / operator mismatch")
+				}
+				ups := back
+				for i, l := range lhs {
+					id, isId := l.(*ast.Ident)
+					if !isId {
+						return t.fail(l, "unsupported call-assignment target")
+					}
+					if id.Name == "_" {
+						continue
+					}
+					if tok == token.DEFINE {
+						if obj := t.p.info.Defs[id]; obj != nil {
+							t.declare(id.Name, obj.Type(), id)
+						}
+					}
+					v, known := t.byName[id.Name]
+					if !known || v.kind != sig.res[i].kind || v.w != sig.res[i].w {
+						return t.fail(l, "call-assignment to a variable of another shape")
+					}
+					ups = append(ups, fmt.Sprintf("%s := %s", id.Name, proj(i, len(sig.res))))
+				}
+				return "(fun s => " + withGuards(gs, fmt.Sprintf("match %s with | .ret r c => .next { s with %s } | .next _ => .panic | .panic => .panic | .diverge => .diverge", term, strings.Join(ups, ", "))) + ")"
+			}
+		}
+	}
 	if len(lhs) != len(rhs) {
 		return t.fail(n, "assignment from a multi-value call")
 	}
@@ -278,6 +385,25 @@ func (t *ftr) stmt(s ast.Stmt) string {
 		}
 		return "Go.skip"
 	case *ast.ReturnStmt:
+		if len(s.Results) == 1 {
+			if ce, isCall := s.Results[0].(*ast.CallExpr); isCall {
+				if term, sig, back, gs, ok := t.call(ce); ok {
+					if len(sig.res) != len(t.res) {
+						return t.fail(s, "returned call has another number of results")
+					}
+					for i := range sig.res {
+						if sig.res[i].kind != t.res[i].kind || sig.res[i].w != t.res[i].w {
+							return t.fail(s, "returned call has results of another shape")
+						}
+					}
+					st := "s"
+					if len(back) > 0 {
+						st = "{ s with " + strings.Join(back, ", ") + " }"
+					}
+					return "(fun s => " + withGuards(gs, fmt.Sprintf("match %s with | .ret r c => .ret r %s | .next _ => .panic | .panic => .panic | .diverge => .diverge", term, st)) + ")"
+				}
+			}
+		}
 		if len(s.Results) != len(t.res) {
 			return t.fail(s, "bare return / wrong number of results")
 		}
@@ -397,6 +523,38 @@ func translateFunc(p *pkgInfo, name string, b *strings.Builder) []string {
 	for _, r := range t.res {
 		rts = append(rts, r.lean)
 	}
+	sig := &fsig{res: t.res, writes: map[string]bool{}}
+	for _, f := range fd.Type.Params.List {
+		for _, n := range f.Names {
+			if v, ok := t.byName[n.Name]; ok {
+				sig.params = append(sig.params, *v)
+			}
+		}
+	}
+	ast.Inspect(fd.Body, func(n ast.Node) bool {
+		switch n := n.(type) {
+		case *ast.AssignStmt:
+			for _, l := range n.Lhs {
+				if ix, ok := l.(*ast.IndexExpr); ok {
+					if id, ok := ix.X.(*ast.Ident); ok {
+						sig.writes[id.Name] = true
+					}
+				}
+			}
+		case *ast.CallExpr: // a callee that stores into a slice we pass on
+			if id, ok := n.Fun.(*ast.Ident); ok {
+				if cs := translated[id.Name]; cs != nil {
+					for i, a := range n.Args {
+						if aid, ok := a.(*ast.Ident); ok && i < len(cs.params) && cs.writes[cs.params[i].name] {
+							sig.writes[aid.Name] = true
+						}
+					}
+				}
+			}
+		}
+		return true
+	})
+	translated[name] = sig
 	fmt.Fprintf(b, "/-! ### `%s` (%s) -/\n\n", name, p.fset.Position(fd.Pos()))
 	fmt.Fprintf(b, "structure %s.St where\n", name)
 	seen := map[string]bool{}
@@ -423,7 +581,8 @@ func writeWireFuncs(p *pkgInfo, outPath string) {
 	var b strings.Builder
 	b.WriteString("/- REGENERATED on every run by harness/cmd/extract (wirefuncs.go): the bodies of the wire primitives of\n   /repo's encoder.go / decoder.go, translated statement by statement. Do not edit. -/\n")
 	b.WriteString("import Csproto.Model.GoSem\nset_option linter.unusedVariables false\nnamespace Csproto.Generated.WireFuncs\nopen Csproto\n\n")
-	for _, fn := range []string{"EncodeVarint", "DecodeVarint", "DecodeFixed32", "DecodeFixed64"} {
+	for _, fn := range []string{"EncodeVarint", "DecodeVarint", "DecodeFixed32", "DecodeFixed64",
+		"EncodeTag", "EncodeZigZag32", "EncodeZigZag64", "DecodeZigZag32", "DecodeZigZag64"} {
 		if errs := translateFunc(p, fn, &b); len(errs) > 0 {
 			fmt.Println("wire primitive", fn, "is outside the translatable fragment (Bridge/WireFuncs.lean no longer applies):")
 			for _, e := range errs {
